@@ -273,6 +273,14 @@ func init() {
 					n.Add(pI(i), pick(r, FloatV(-1.5), IntV(-1), FloatV(0.5)))
 				}
 			}},
+		AtomKind{Name: "minInclusiveTinyFraction", PerValue: true, Constraint: func(i int) []Constraint { return []Constraint{CScalar("minInclusive", RawScalar("0.0000005"))} },
+			Assign: func(n *Node, i int, t bool, r *rand.Rand) {
+				if t {
+					n.Add(pI(i), pick(r, FloatV(0.0000007), FloatV(0.0000005), IntV(1)))
+				} else {
+					n.Add(pI(i), pick(r, FloatV(0.0000002), IntV(0), FloatV(-0.0000009)))
+				}
+			}},
 		AtomKind{Name: "datatypeFloat", PerValue: true, Constraint: func(i int) []Constraint { return []Constraint{CScalar("datatype", Str("xsd.float"))} },
 			Assign: func(n *Node, i int, t bool, r *rand.Rand) {
 				if t {
